@@ -27,80 +27,7 @@ func runC05(c *eng.Ctx) {
 	p := c.P
 	// ---- R05.1
 	c.Rule("R05.1", "K2")
-	if fn := c.Fn(cl + "(*segment).WriteMessageSet"); fn != nil {
-		wr := eng.CallsIn(fn, cl+"segment.write")
-		ix := eng.CallsIn(fn, cl+"index.writeEntries")
-		if len(wr) != 1 || len(ix) != 1 {
-			c.Unresolved("s.write / Index.writeEntries in WriteMessageSet")
-		} else {
-			wv := wr[0].(*ssa.Call)
-			okEdge := eng.CmpEdges(fn, func(v ssa.Value) bool { e, ok := v.(*ssa.Extract); return ok && e.Tuple == wv && e.Index == 1 }, eng.NilConst, eng.EQ)
-			g, w := eng.GuardedBy(fn, ix[0].(ssa.Instruction), okEdge)
-			c.Check(g && len(okEdge) > 0, "index entries written only after the log bytes", c.Pos(ix[0].(ssa.Instruction)), "writeEntries is reached only over err == nil of s.write", "index entries can be written before / without the log bytes (path "+w.String()+"): after a crash the index points at data that is not there")
-			c.Check(wv.Call.Args[2] == ix[0].Common().Args[1], "same entries for log and index", c.Pos(ix[0].(ssa.Instruction)), "write(ms, entries) then writeEntries(entries)", "the entries indexed are not the entries of the bytes just written")
-		}
-	}
-	if fn := c.Fn(cl + "(*segment).write"); fn != nil {
-		// position/offset bookkeeping only after a successful write
-		ww := eng.CallsIn(fn, "io.Writer.Write")
-		if len(ww) == 1 {
-			wv := ww[0].(*ssa.Call)
-			okEdge := eng.CmpEdges(fn, func(v ssa.Value) bool { e, ok := v.(*ssa.Extract); return ok && e.Tuple == wv && e.Index == 1 }, eng.NilConst, eng.EQ)
-			okEdge = append(okEdge, cellEdgesIdx(fn, wv, 1)...)
-			for _, f := range []string{"position", "lastOffset"} {
-				fo := p.Field(clPkg, "segment", f)
-				for _, st := range eng.FieldStores(fn, func(fa *ssa.FieldAddr) bool { return fieldIs(fa, fo) }) {
-					g, w := eng.GuardedBy(fn, st, okEdge)
-					c.Check(g && len(okEdge) > 0, "segment."+f+" advanced only after a successful write", c.Pos(st), "behind err == nil of writer.Write", "segment."+f+" advances although the write failed (path "+w.String()+")")
-				}
-			}
-		} else {
-			c.Unresolved("writer.Write in segment.write")
-		}
-	}
-	// the write position is the file size at open and advances only by bytes written
-	posF := p.Field(clPkg, "segment", "position")
-	for _, a := range eng.StoresToField(p, posF, false) {
-		st := a.Use.(*ssa.Store)
-		k := ir.FuncKey(a.Fn)
-		switch k {
-		case cl + "newSegment":
-			ok := eng.Call(-1, "io/fs.FileInfo.Size", "os.FileInfo.Size")(st.Val)
-			c.Check(ok, "segment.position at open = size of the log file", c.Pos(st), "position = Stat().Size()", "the write position of a recovered segment is "+eng.Describe(st.Val)+", not the size of the log file: after a crash between the log write and the index write, new index entries point at the wrong bytes")
-		case cl + "(*segment).write":
-			ok := eng.BinComm(token.ADD, eng.Load(posF, nil), eng.AnyV)(st.Val)
-			c.Check(ok, "segment.position advances by the bytes written", c.Pos(st), "position += n", "segment.write sets the position to "+eng.Describe(st.Val))
-		case cl + "(*segment).setupIndex":
-			// recovery may cut a partial / un-indexed tail off the log: the position then is the size the file was truncated to
-			ok := false
-			for _, tr := range eng.CallsIn(a.Fn, "os.File.Truncate") {
-				args := eng.AllArgs(tr.Common())
-				if len(args) == 2 && (args[1] == st.Val || eng.Strip(args[1]) == eng.Strip(st.Val)) {
-					if g, _ := eng.PrecededBy(a.Fn, st, func(x ssa.Instruction) bool { return x == tr.(ssa.Instruction) }); g {
-						ok = true
-					}
-				}
-			}
-			if !ok {
-				// once the log has been reconciled with the index (R05.8: position compared with the indexed end on every path to
-				// this store, repaired where it was ahead), the indexed end IS the file size: storing it changes nothing
-				isEnd := func(v ssa.Value) bool {
-					v = eng.Strip(v)
-					return eng.Call(-1, cl+"indexedEnd")(v) || eng.BinComm(token.ADD, eng.LoadNamed("Position", nil), eng.LoadNamed("Size", nil))(v)
-				}
-				if isEnd(st.Val) {
-					cmp := eng.CmpEdges(a.Fn, eng.Load(posF, nil), isEnd, eng.LT|eng.EQ|eng.GT)
-					if g, _ := eng.GuardedBy(a.Fn, st, cmp); g && len(cmp) > 0 {
-						ok = true
-					}
-				}
-			}
-			c.Check(ok, "segment.position follows the size the log was truncated to at recovery", c.Pos(st), "log.Truncate(end); position = end", "setupIndex sets the write position to "+eng.Describe(st.Val)+" without truncating the log file to that size: the position no longer is the size of the file that O_APPEND writes to")
-		default:
-			c.Violate("store to segment.position in "+k, c.Pos(st), "the write position is set outside newSegment (file size) and write (+= n): recovery no longer takes the position from the file, so index entries written after a crash can point at the wrong bytes")
-		}
-	}
-	c.Floor(6)
+	ruleLogThenIndex(c)
 
 	// ---- R05.2 atomic checkpoints
 	c.Rule("R05.2", "K3")
@@ -141,37 +68,7 @@ func runC05(c *eng.Ctx) {
 
 	// ---- R05.3 Replace ordering
 	c.Rule("R05.3", "K2")
-	if fn := c.Fn(cl + "(*segment).Replace"); fn != nil {
-		closes := eng.CallsIn(fn, cl+"segment.close")
-		renames := eng.CallsIn(fn, "os.Rename")
-		setup := eng.CallsIn(fn, cl+"segment.setupIndex")
-		open := eng.CallsIn(fn, "os.OpenFile")
-		if len(closes) != 2 || len(renames) != 2 || len(setup) != 1 || len(open) != 1 {
-			c.Unresolved("two close(), two Rename, OpenFile and setupIndex in segment.Replace")
-		} else {
-			sort.Slice(renames, func(i, j int) bool { return renames[i].Pos() < renames[j].Pos() })
-			for _, cc := range closes {
-				cv := cc.(ssa.Value)
-				okEdge := eng.CmpEdges(fn, eng.Same(cv), eng.NilConst, eng.EQ)
-				g, w := eng.GuardedBy(fn, renames[0].(ssa.Instruction), okEdge)
-				c.Check(g && len(okEdge) > 0, "segments closed before the first rename", c.Pos(cc.(ssa.Instruction)), "both close() calls succeeded before os.Rename", "a rename can happen while a segment is still open or after its close failed (path "+w.String()+")")
-			}
-			r0 := renames[0].(ssa.Value)
-			ok0 := eng.CmpEdges(fn, eng.Same(r0), eng.NilConst, eng.EQ)
-			g, w := eng.GuardedBy(fn, renames[1].(ssa.Instruction), ok0)
-			c.Check(g && len(ok0) > 0, "index renamed only after the log rename succeeded", c.Pos(renames[1].(ssa.Instruction)), "second rename behind err == nil of the first", "the index can be renamed although the log rename failed (path "+w.String()+")")
-			isLog := eng.Call(-1, cl+"segment.logPath")
-			isIdx := eng.Call(-1, cl+"segment.indexPath")
-			c.Check(isLog(renames[0].Common().Args[0]) && isLog(renames[0].Common().Args[1]) && isIdx(renames[1].Common().Args[0]) && isIdx(renames[1].Common().Args[1]), "log renamed first, then index", c.Pos(renames[0].(ssa.Instruction)), "Rename(log→log) then Rename(index→index)", "the two renames are not log-then-index between matching paths")
-			r1 := renames[1].(ssa.Value)
-			ok1 := eng.CmpEdges(fn, eng.Same(r1), eng.NilConst, eng.EQ)
-			g2, w2 := eng.GuardedBy(fn, open[0].(ssa.Instruction), ok1)
-			c.Check(g2 && len(ok1) > 0, "reopen only after both renames", c.Pos(open[0].(ssa.Instruction)), "OpenFile behind err == nil of the second rename", "the segment is reopened although a rename failed (path "+w2.String()+")")
-			g3, _ := eng.PrecededBy(fn, setup[0].(ssa.Instruction), func(x ssa.Instruction) bool { return x == open[0].(ssa.Instruction) })
-			c.Check(g3, "index re-derived after the reopen", c.Pos(setup[0].(ssa.Instruction)), "setupIndex follows OpenFile", "setupIndex does not follow the reopen")
-		}
-	}
-	c.Floor(6)
+	ruleReplaceOrdering(c)
 
 	// ---- R05.4 recovery exhaustiveness
 	c.Rule("R05.4", "K6")
@@ -640,4 +537,121 @@ func ruleSegmentDelete(c *eng.Ctx) {
 		c.Check(okRep && len(rmLog)+len(rmIdx) >= 2, "deleting a segment twice is not an error", p.Pos(fn.Pos()), "each os.Remove is guarded by exists() (or tolerates IsNotExist)", "segment.Delete fails when one of its files is already gone: after a deletion that failed half way, every retry by the cleaner fails with ENOENT, retention for that log is stuck and the limits never hold again")
 		c.Check(ok, "a segment's log file is removed before its index", p.Pos(fn.Pos()), "os.Remove(log) precedes os.Remove(index)", "segment.Delete can remove the index while the log file still exists: a crash in between leaves a log without index, which recovery re-opens as a segment whose stored messages are unreachable (an orphan index, by contrast, is cleaned up by open())")
 	}
+}
+
+// ruleLogThenIndex (R05.1, shared with C01 and C16): index entries only after the log bytes; bookkeeping only after a successful write.
+func ruleLogThenIndex(c *eng.Ctx) {
+	p := c.P
+	_ = p
+	if fn := c.Fn(cl + "(*segment).WriteMessageSet"); fn != nil {
+		wr := eng.CallsIn(fn, cl+"segment.write")
+		ix := eng.CallsIn(fn, cl+"index.writeEntries")
+		if len(wr) != 1 || len(ix) != 1 {
+			c.Unresolved("s.write / Index.writeEntries in WriteMessageSet")
+		} else {
+			wv := wr[0].(*ssa.Call)
+			okEdge := eng.CmpEdges(fn, func(v ssa.Value) bool { e, ok := v.(*ssa.Extract); return ok && e.Tuple == wv && e.Index == 1 }, eng.NilConst, eng.EQ)
+			g, w := eng.GuardedBy(fn, ix[0].(ssa.Instruction), okEdge)
+			c.Check(g && len(okEdge) > 0, "index entries written only after the log bytes", c.Pos(ix[0].(ssa.Instruction)), "writeEntries is reached only over err == nil of s.write", "index entries can be written before / without the log bytes (path "+w.String()+"): after a crash the index points at data that is not there")
+			c.Check(wv.Call.Args[2] == ix[0].Common().Args[1], "same entries for log and index", c.Pos(ix[0].(ssa.Instruction)), "write(ms, entries) then writeEntries(entries)", "the entries indexed are not the entries of the bytes just written")
+		}
+	}
+	if fn := c.Fn(cl + "(*segment).write"); fn != nil {
+		// position/offset bookkeeping only after a successful write
+		ww := eng.CallsIn(fn, "io.Writer.Write")
+		if len(ww) == 1 {
+			wv := ww[0].(*ssa.Call)
+			okEdge := eng.CmpEdges(fn, func(v ssa.Value) bool { e, ok := v.(*ssa.Extract); return ok && e.Tuple == wv && e.Index == 1 }, eng.NilConst, eng.EQ)
+			okEdge = append(okEdge, cellEdgesIdx(fn, wv, 1)...)
+			for _, f := range []string{"position", "lastOffset"} {
+				fo := p.Field(clPkg, "segment", f)
+				for _, st := range eng.FieldStores(fn, func(fa *ssa.FieldAddr) bool { return fieldIs(fa, fo) }) {
+					g, w := eng.GuardedBy(fn, st, okEdge)
+					c.Check(g && len(okEdge) > 0, "segment."+f+" advanced only after a successful write", c.Pos(st), "behind err == nil of writer.Write", "segment."+f+" advances although the write failed (path "+w.String()+")")
+				}
+			}
+		} else {
+			c.Unresolved("writer.Write in segment.write")
+		}
+	}
+	// the write position is the file size at open and advances only by bytes written
+	posF := p.Field(clPkg, "segment", "position")
+	for _, a := range eng.StoresToField(p, posF, false) {
+		st := a.Use.(*ssa.Store)
+		k := ir.FuncKey(a.Fn)
+		switch k {
+		case cl + "newSegment":
+			ok := eng.Call(-1, "io/fs.FileInfo.Size", "os.FileInfo.Size")(st.Val)
+			c.Check(ok, "segment.position at open = size of the log file", c.Pos(st), "position = Stat().Size()", "the write position of a recovered segment is "+eng.Describe(st.Val)+", not the size of the log file: after a crash between the log write and the index write, new index entries point at the wrong bytes")
+		case cl + "(*segment).write":
+			ok := eng.BinComm(token.ADD, eng.Load(posF, nil), eng.AnyV)(st.Val)
+			c.Check(ok, "segment.position advances by the bytes written", c.Pos(st), "position += n", "segment.write sets the position to "+eng.Describe(st.Val))
+		case cl + "(*segment).setupIndex":
+			// recovery may cut a partial / un-indexed tail off the log: the position then is the size the file was truncated to
+			ok := false
+			for _, tr := range eng.CallsIn(a.Fn, "os.File.Truncate") {
+				args := eng.AllArgs(tr.Common())
+				if len(args) == 2 && (args[1] == st.Val || eng.Strip(args[1]) == eng.Strip(st.Val)) {
+					if g, _ := eng.PrecededBy(a.Fn, st, func(x ssa.Instruction) bool { return x == tr.(ssa.Instruction) }); g {
+						ok = true
+					}
+				}
+			}
+			if !ok {
+				// once the log has been reconciled with the index (R05.8: position compared with the indexed end on every path to
+				// this store, repaired where it was ahead), the indexed end IS the file size: storing it changes nothing
+				isEnd := func(v ssa.Value) bool {
+					v = eng.Strip(v)
+					return eng.Call(-1, cl+"indexedEnd")(v) || eng.BinComm(token.ADD, eng.LoadNamed("Position", nil), eng.LoadNamed("Size", nil))(v)
+				}
+				if isEnd(st.Val) {
+					cmp := eng.CmpEdges(a.Fn, eng.Load(posF, nil), isEnd, eng.LT|eng.EQ|eng.GT)
+					if g, _ := eng.GuardedBy(a.Fn, st, cmp); g && len(cmp) > 0 {
+						ok = true
+					}
+				}
+			}
+			c.Check(ok, "segment.position follows the size the log was truncated to at recovery", c.Pos(st), "log.Truncate(end); position = end", "setupIndex sets the write position to "+eng.Describe(st.Val)+" without truncating the log file to that size: the position no longer is the size of the file that O_APPEND writes to")
+		default:
+			c.Violate("store to segment.position in "+k, c.Pos(st), "the write position is set outside newSegment (file size) and write (+= n): recovery no longer takes the position from the file, so index entries written after a crash can point at the wrong bytes")
+		}
+	}
+	c.Floor(6)
+}
+
+// ruleReplaceOrdering (R05.3, shared with C01): the ordering of segment.Replace.
+func ruleReplaceOrdering(c *eng.Ctx) {
+	p := c.P
+	_ = p
+	if fn := c.Fn(cl + "(*segment).Replace"); fn != nil {
+		closes := eng.CallsIn(fn, cl+"segment.close")
+		renames := eng.CallsIn(fn, "os.Rename")
+		setup := eng.CallsIn(fn, cl+"segment.setupIndex")
+		open := eng.CallsIn(fn, "os.OpenFile")
+		if len(closes) != 2 || len(renames) != 2 || len(setup) != 1 || len(open) != 1 {
+			c.Unresolved("two close(), two Rename, OpenFile and setupIndex in segment.Replace")
+		} else {
+			sort.Slice(renames, func(i, j int) bool { return renames[i].Pos() < renames[j].Pos() })
+			for _, cc := range closes {
+				cv := cc.(ssa.Value)
+				okEdge := eng.CmpEdges(fn, eng.Same(cv), eng.NilConst, eng.EQ)
+				g, w := eng.GuardedBy(fn, renames[0].(ssa.Instruction), okEdge)
+				c.Check(g && len(okEdge) > 0, "segments closed before the first rename", c.Pos(cc.(ssa.Instruction)), "both close() calls succeeded before os.Rename", "a rename can happen while a segment is still open or after its close failed (path "+w.String()+")")
+			}
+			r0 := renames[0].(ssa.Value)
+			ok0 := eng.CmpEdges(fn, eng.Same(r0), eng.NilConst, eng.EQ)
+			g, w := eng.GuardedBy(fn, renames[1].(ssa.Instruction), ok0)
+			c.Check(g && len(ok0) > 0, "index renamed only after the log rename succeeded", c.Pos(renames[1].(ssa.Instruction)), "second rename behind err == nil of the first", "the index can be renamed although the log rename failed (path "+w.String()+")")
+			isLog := eng.Call(-1, cl+"segment.logPath")
+			isIdx := eng.Call(-1, cl+"segment.indexPath")
+			c.Check(isLog(renames[0].Common().Args[0]) && isLog(renames[0].Common().Args[1]) && isIdx(renames[1].Common().Args[0]) && isIdx(renames[1].Common().Args[1]), "log renamed first, then index", c.Pos(renames[0].(ssa.Instruction)), "Rename(log→log) then Rename(index→index)", "the two renames are not log-then-index between matching paths")
+			r1 := renames[1].(ssa.Value)
+			ok1 := eng.CmpEdges(fn, eng.Same(r1), eng.NilConst, eng.EQ)
+			g2, w2 := eng.GuardedBy(fn, open[0].(ssa.Instruction), ok1)
+			c.Check(g2 && len(ok1) > 0, "reopen only after both renames", c.Pos(open[0].(ssa.Instruction)), "OpenFile behind err == nil of the second rename", "the segment is reopened although a rename failed (path "+w2.String()+")")
+			g3, _ := eng.PrecededBy(fn, setup[0].(ssa.Instruction), func(x ssa.Instruction) bool { return x == open[0].(ssa.Instruction) })
+			c.Check(g3, "index re-derived after the reopen", c.Pos(setup[0].(ssa.Instruction)), "setupIndex follows OpenFile", "setupIndex does not follow the reopen")
+		}
+	}
+	c.Floor(6)
 }
